@@ -100,6 +100,7 @@ class Interp:
                           interp_calls=0, solver_s=0.0)
         self.encoded = set()
         self.fd_add_limit = 8
+        self.lazy = False
         self.footprint = None     # when a dict: records attribute reads/writes {"r": set, "w": set}
         self.no_merge = False
 
@@ -114,6 +115,10 @@ class Interp:
     def feasible(self, g):
         if isinstance(g, bool):
             return g
+        if self.lazy:
+            # no solver call while encoding: every syntactically possible branch is explored and the
+            # harness decides path feasibility itself (used for the binary64 encodings)
+            return not z3.is_false(z3.simplify(g))
         r = self.check(g)
         if r == z3.unknown:
             raise Unsupported("solver unknown in feasibility check")
@@ -831,8 +836,72 @@ class Interp:
             return self.str_format(a, b)
         raise Unsupported("string op %s" % t.__name__)
 
+    def fp_binop(self, t, a, b):
+        """IEEE binary64 / bit-vector integer mode (composition-level encodings)"""
+        F64 = z3.Float64()
+        RNE = z3.RNE()
+
+        def lift(x, other):
+            if x.kind in ("bv", "fp"):
+                return x
+            z = z3.simplify(x.z)
+            if x.kind == "int" and z3.is_int_value(z):
+                if other.kind == "bv":
+                    return Sym(z3.BitVecVal(z.as_long(), other.z.size()), "bv")
+                return Sym(z3.FPVal(float(z.as_long()), F64), "fp")
+            if x.kind == "real" and z3.is_rational_value(z):
+                fr = z.as_fraction()
+                fl = float(fr)
+                from fractions import Fraction
+                if Fraction(fl) != fr:
+                    raise Unsupported("non-double constant in fp mode")
+                return Sym(z3.FPVal(fl, F64), "fp")
+            raise Unsupported("mixing symbolic %s with fp/bv" % x.kind)
+
+        def tofp(x):
+            return x.z if x.kind == "fp" else z3.fpSignedToFP(RNE, x.z, F64)
+        a2, b2 = lift(a, b), lift(b, a)
+        if a2.kind == b2.kind == "bv":
+            x, y = a2.z, b2.z
+            if t in CMP:
+                z = {ast.Eq: lambda: x == y, ast.NotEq: lambda: x != y, ast.Lt: lambda: x < y, ast.LtE: lambda: x <= y,
+                     ast.Gt: lambda: x > y, ast.GtE: lambda: x >= y}[t]()
+                return Sym(z, "bool")
+            if t is ast.Add:
+                return Sym(x + y, "bv")
+            if t is ast.Sub:
+                return Sym(x - y, "bv")
+            if t is ast.Mult:
+                return Sym(x * y, "bv")
+            if t is not ast.Div:
+                raise Unsupported("bv op %s" % t.__name__)
+        x, y = tofp(a2), tofp(b2)
+        if t in CMP:
+            z = {ast.Eq: lambda: z3.fpEQ(x, y), ast.NotEq: lambda: z3.Not(z3.fpEQ(x, y)), ast.Lt: lambda: z3.fpLT(x, y),
+                 ast.LtE: lambda: z3.fpLEQ(x, y), ast.Gt: lambda: z3.fpGT(x, y), ast.GtE: lambda: z3.fpGEQ(x, y)}[t]()
+            return Sym(z, "bool")
+        if t is ast.Add:
+            return Sym(z3.fpAdd(RNE, x, y), "fp")
+        if t is ast.Sub:
+            return Sym(z3.fpSub(RNE, x, y), "fp")
+        if t is ast.Mult:
+            return Sym(z3.fpMul(RNE, x, y), "fp")
+        if t is ast.Div:
+            zero = z3.fpIsZero(y)
+            if self.feasible(zero):
+                if self.branch(zero):
+                    raise PyRaise(ZeroDivisionError("float division by zero"))
+            return Sym(z3.fpDiv(RNE, x, y), "fp")
+        if t is ast.Pow:
+            bz = z3.simplify(b.z) if b.kind in ("int", "real") else None
+            if bz is not None and ((z3.is_int_value(bz) and bz.as_long() == 2) or (z3.is_rational_value(bz) and bz.as_fraction() == 2)):
+                return Sym(z3.fpMul(RNE, x, x), "fp")
+        raise Unsupported("fp op %s" % t.__name__)
+
     def sym_binop(self, t, a, b):
         a, b = to_sym(a), to_sym(b)
+        if a.kind in ("bv", "fp") or b.kind in ("bv", "fp"):
+            return self.fp_binop(t, a, b)
         if t in CMP:
             if a.kind == "real" or b.kind == "real":
                 x, y = as_real(a), as_real(b)
@@ -1020,6 +1089,10 @@ class Interp:
             return {k: self.merge(g, a[k], b[k]) for k in a}
         if isinstance(a, Sym) or isinstance(b, Sym):
             a2, b2 = to_sym(a), to_sym(b)
+            if a2.kind == b2.kind and a2.kind in ("bv", "fp"):
+                return Sym(z3.If(g, a2.z, b2.z), a2.kind)
+            if a2.kind in ("bv", "fp") or b2.kind in ("bv", "fp"):
+                raise MergeAbort("mixed fp/bv merge")
             if a2.kind == b2.kind == "bool":
                 return Sym(z3.If(g, a2.z, b2.z), "bool")
             if a2.kind == "real" or b2.kind == "real":
